@@ -32,7 +32,7 @@ def main():
         report.analysed["repo"] = p.root
         mod.run(p, report, tier)
         extra = None
-        if tier == "thorough" and hasattr(mod, "selftest"):
+        if tier == "thorough":
             from sa import selftest
             report.selftest = selftest.run_for(prop, mod, p)
         rc = finish(report, tier, seed, t0, extra)
